@@ -88,6 +88,19 @@ impl core::iter::Sum for $t { fn sum<I: Iterator<Item = $t>>(i: I) -> $t { i.fol
 impl core::iter::Product for $t { fn product<I: Iterator<Item = $t>>(i: I) -> $t { i.fold($t(2000), |a, b| a * b) } }
 } }
 tagty!(Tag); tagty!(Tag2);
+// generic structs are instantiated with types that implement ONLY what the derive documents it needs: Gs the operators
+// with a scalar right-hand side (no `Gs * Gs`), Ga the operators between two values of the type (no `Ga * K`)
+#[derive(Clone, Copy, Debug, PartialEq)] pub struct Gs(pub u64);
+#[derive(Clone, Copy, Debug, PartialEq)] pub struct Ga(pub u64);
+""" + "".join(
+        (f"impl core::ops::{tr}<K> for Gs {{ type Output = Gs; fn {m}(self, r: K) -> Gs {{ Gs(mix({OPCODE[tr] + 100}, self.0, r.0)) }} }}\n"
+         f"impl core::ops::{tr}<KN> for Gs {{ type Output = Gs; fn {m}(self, r: KN) -> Gs {{ Gs(mix({OPCODE[tr] + 100}, self.0, r.0)) }} }}\n"
+         f"impl core::ops::{tr}Assign<K> for Gs {{ fn {m}_assign(&mut self, r: K) {{ self.0 = mix({OPCODE[tr] + 100}, self.0, r.0); }} }}\n"
+         f"impl core::ops::{tr}Assign<KN> for Gs {{ fn {m}_assign(&mut self, r: KN) {{ self.0 = mix({OPCODE[tr] + 100}, self.0, r.0); }} }}\n"
+         f"impl core::ops::{tr} for Ga {{ type Output = Ga; fn {m}(self, r: Ga) -> Ga {{ Ga(mix({OPCODE[tr]}, self.0, r.0)) }} }}\n"
+         f"impl core::ops::{tr}Assign for Ga {{ fn {m}_assign(&mut self, r: Ga) {{ self.0 = mix({OPCODE[tr]}, self.0, r.0); }} }}\n")
+        for tr, m in METHOD.items()) + """impl core::ops::Not for Ga { type Output = Ga; fn not(self) -> Ga { Ga(mix(20, self.0, 0)) } }
+impl core::ops::Neg for Ga { type Output = Ga; fn neg(self) -> Ga { Ga(mix(21, self.0, 0)) } }
 pub fn report(k: &str, res: String) { println!("OBS {{\\"k\\": {:?}, \\"res\\": {}}}", k, res); }
 """)
 
@@ -100,9 +113,12 @@ def key_of(c):
 
 FN = ["a", "b", "c"]    # named fields; a second pass names them like the identifiers the expansions use themselves
 SAME_TYPES = False     # set per case: every field has the SAME type (a derive keyed by field type must still treat each field)
+GENERIC = None         # set per case: the struct is `S<T>`, every field a `T`, instantiated with this type
 
 
-def fty(i):
+def fty(i, decl=False):
+    if GENERIC:
+        return "T" if decl else GENERIC
     if SAME_TYPES:
         return "Tag"
     return "Tag" if i % 2 == 1 else "Tag2"
@@ -113,8 +129,8 @@ def variant_body(v, pub="pub "):
     if v["k"] == "unit":
         return ""
     if v["k"] == "tuple":
-        return "(" + ", ".join(f"{pub}{fty(i)}" for i in range(1, n + 1)) + ")"
-    return "{ " + ", ".join(f"{pub}{FN[i - 1]}: {fty(i)}" for i in range(1, n + 1)) + " }"
+        return "(" + ", ".join(f"{pub}{fty(i, True)}" for i in range(1, n + 1)) + ")"
+    return "{ " + ", ".join(f"{pub}{FN[i - 1]}: {fty(i, True)}" for i in range(1, n + 1)) + " }"
 
 
 def variant_val(v, base, path):
@@ -146,7 +162,7 @@ def module(c, key, max_items):
     lines = ["use super::*;"]
     if not sh["enum"]:
         v = sh["vs"][0]
-        lines.append(f"{derives}\n{attr}pub struct S{variant_body(v)}" + (";" if v["k"] == "tuple" else ""))
+        lines.append(f"{derives}\n{attr}pub struct S{'<T>' if GENERIC else ''}{variant_body(v)}" + (";" if v["k"] == "tuple" else ""))
         lv = variant_val(v, lambda i: 11 + i, "S")
         rv = variant_val(v, lambda i: 21 + i, "S")
         scalar = "KN(5)" if v["n"] == 1 else "K(5)"
@@ -249,6 +265,19 @@ def run(chk, tier, seed, replay):
             cases[k2] = rec
             mods.append((k2, module(rec["c"], k2, max_items)))
     FN = ["a", "b", "c"]
+    # generic structs `S<T>` instantiated with a type that has exactly the operators the derive documents it needs
+    global GENERIC
+    for k, rec in list(cases.items()):
+        c = rec["c"]
+        if "|" in k.split("]")[-1] or c["sh"]["enum"] or c["d"] in ("Sum", "Product"):
+            continue
+        base = c["d"][:-6] if c["d"].endswith("Assign") else c["d"]
+        scalar = base in ("Mul", "Div", "Rem", "Shr", "Shl") and not c["fwd"]
+        GENERIC = "Gs" if scalar else "Ga"
+        k2 = k + "|generic"
+        cases[k2] = rec
+        mods.append((k2, module(c, k2, max_items)))
+    GENERIC = None
     log(f"[C10] {len(mods)} operator derives")
     nsh = 4
     shards = [mods[i::nsh] for i in range(nsh)]
